@@ -242,5 +242,70 @@ PROPS['C20'] = Prop(
                  'sufficient condition only: a failed publication obligation is reported as a violation only with a replayed schedule'],
 )
 
+PROPS['C13'] = Prop(
+    functions=['policy:Enforcer._undefined_check'],
+    bounded=[('bounded.tools', 'c13')],
+    level='other',
+    technique='contract-based deductive verification of the undefined-reference walk (own VC generator + z3); cycle walk, aggregation and graph-level exactness by a labelled bounded stand-in',
+    explanation='PROVED for check trees of any shape and depth: _undefined_check returns true exactly when some rule: '
+                'reference anywhere in the expression (under and, or and not) names an undefined rule. BOUNDED: the '
+                'cycle walk (its contract exists; 5 obligations are not discharged within budget), check_rules '
+                'aggregation and the validator: all digraphs on 3 names with references at varying depth plus random rule '
+                'sets on 6 names against an independent graph analysis; clean rule sets are evaluated under a '
+                'recursion watchdog.',
+    assumptions=COMMON_ASSUME + ['user-defined check classes carry no rules/rule attribute'],
+)
+
+PROPS['C16'] = Prop(
+    functions=['_external:HttpCheck.__call__', '_external:HttpsCheck.__call__', '_external:HttpCheck._construct_payload',
+               '_checks:_check', '_checks:RuleCheck.__call__', '_checks:NotCheck.__call__', '_checks:AndCheck.__call__',
+               '_checks:OrCheck.__call__'],
+    bounded=[('bounded.tools', 'c16')],
+    level='other',
+    technique='contract-based deductive verification of the remote checks and of the forwarding of the policy name (own VC generator + z3); the reading of "surrounding double quotes" as a regular language is validated by a bounded native check',
+    explanation='PROVED for all targets, credentials and reply bodies: exactly one POST goes to fmt(scheme+match, target) '
+                'with the configured timeout and the payload in the configured encoding (rule = current_rule, deep copy '
+                'of the target with opaque objects blanked, credentials); the caller\'s target is not written; the '
+                'result is True iff rstrip(lstrip(body, quote), quote) == "True"; Timeout becomes RuntimeError, other '
+                'transport failures propagate, TLS file pre-checks raise; _check, rule:, and/or/not pass the enforced '
+                'policy name through unchanged. BOUNDED: reply-body alphabet, status codes, faults, encodings, nesting.',
+    assumptions=COMMON_ASSUME + ['requests.post / copy.deepcopy / jsonutils.dumps / os.path stubs',
+                                 'HTTP status codes do not enter the decision (the contract says so explicitly)',
+                                 'trusted lemma: a %-free constant prefix changes neither well-formedness nor the referenced keys of a format string'],
+)
+
+PROPS['C17'] = Prop(
+    functions=[],
+    bounded=[('bounded.tools', 'c17')],
+    level='other',
+    technique='bounded stand-in (string-level contracts of the generator are not built in this revision)',
+    explanation='BOUNDED: random default lists with hostile descriptions and reasons; the YAML sample must load as an empty '
+                'mapping, its uncommented rule lines as exactly the defaults, the JSON sample as that mapping. Nothing is '
+                'proved for C17 in this revision.',
+    assumptions=['bounded only', 'operation method/path, scope types and deprecated_since are single-line strings'],
+)
+
+PROPS['C18'] = Prop(
+    functions=[],
+    bounded=[('bounded.tools', 'c18')],
+    level='other',
+    technique='bounded stand-in (map-level contracts of the tools are not built in this revision)',
+    explanation='BOUNDED: random policy files against plain/renamed/split/changed default sets through policy-upgrade (yaml '
+                'and json), convert-json-to-yaml, policy-generator and list-redundant; enforcer decisions before and after '
+                'for every surviving name and role subset. Nothing is proved for C18 in this revision.',
+    assumptions=['bounded only', 'files defining both a deprecated name and one of its successors are excluded'],
+)
+
+PROPS['C19'] = Prop(
+    functions=[],
+    bounded=[('bounded.tools', 'c19')],
+    level='other',
+    technique='bounded stand-in (the shell contracts are not built in this revision)',
+    explanation='BOUNDED: random policy files x project/domain/system tokens x is_admin x target files x requested rule; '
+                'the printed verdicts and their order against Enforcer.enforce on the documented derivation of '
+                'credentials and target. Nothing is proved for C19 in this revision.',
+    assumptions=['bounded only'],
+)
+
 for _pid in PROPS:
     NOT_APPLICABLE.pop(_pid, None)
